@@ -202,6 +202,28 @@ let corpus () =
       detect_fixed "corpus_detect_gist" GiST (OpGiST (fld r 32, fld r 32, fld r 32, zi f));
       detect_fixed "corpus_detect_spgist" SPGiST (OpSPG (zi f, fld r 16, fld r 16))) [ 0; 1; 2; 8; 0xFFFF; 0xF091; 0xFF80 ]
 
+(* detectIndexType on first pages whose trailer words run through every combination of the low flag bits (no expectation
+   from the specification: a GIN file starts with its metapage, a pending-list or data page in front is outside first_ok;
+   model vs implementation only): an 8-byte special space with the word at +6 (GIN flags / BRIN type) or at +0 (SP-GiST
+   flags) = f, and a 16-byte special space with the word at +12 (B-tree / hash / GiST flags) = f, for all f in 0..511 and the
+   single bits above (seeded change C18-13: GIN_LIST replaced by GIN_LIST_FULLROW in the detection mask) *)
+let detect_flag_sweep seed =
+  let le16b v = [ byte_of_int (v land 255); byte_of_int ((v lsr 8) land 255) ] in
+  let r = rng_for seed 777777 in
+  let fs = List.init 512 (fun f -> f) @ [ 0x200; 0x400; 0x800; 0x1000; 0x2000; 0x4000; 0x8000; 0xFFFF; 0xFF80; 0xF091; 0xF092; 0xF093 ] in
+  let page special fill =
+    let lower = 24 + 4 * rint r 5 in
+    let hdr = rbytes r 12 @ le16b lower @ le16b (lower + rint r 100) @ le16b special @ le16b (8192 lor 4) @ rbytes r 4 in
+    let body = List.init (special - 24) (fun _ -> byte_of_int 0) in
+    hdr @ body @ fill in
+  List.iter (fun f ->
+      let w = le16b f in
+      let o6 = rbytes r 6 in
+      run_detect ~tag:"detect_flagsweep_sp8_at6" ~s:"-" (page 8184 (o6 @ w)) [];
+      run_detect ~tag:"detect_flagsweep_sp8_at0" ~s:"-" (page 8184 (w @ rbytes r 6)) [];
+      let o12 = rbytes r 12 in
+      run_detect ~tag:"detect_flagsweep_sp16_at12" ~s:"-" (page 8176 (o12 @ w @ le16b (pick r [| 0; 1; 0xFF80; 0xFF81; 0xFF82; 0xFF7F |]))) []) fs
+
 (* ---------- random cases ---------- *)
 let gen_case r k =
   let a = ams.(rint r 6) in
@@ -337,5 +359,6 @@ let gen_case r k =
 
 let gen seed n =
   corpus ();
+  detect_flag_sweep seed;
   for k = 0 to n - 1 do gen_case (rng_for seed k) k done
 let () = main gen
